@@ -385,6 +385,7 @@ func HarnessFault() {
 		}
 	}
 	vrt.Assert("C10.reopened-state-is-admissible", matched >= 0)
+	checkSealedIndexes("C09-C10.after-faults", e2.FS, e2.Meta)
 	if matched >= 0 {
 		// every acknowledged entry must be there unless a (failed but applied) truncation removed it
 		probe("C10.reopen", e2.L, &cands[matched], vrt.U64("probe2"))
